@@ -18,6 +18,10 @@ func init() {
 					}
 				}
 			}
+			r = append(r, Oblig{Harness: "vh_C04_recvcopy", Unroll: 12})
+			for form := 0; form <= 5; form++ {
+				r = append(r, Oblig{Harness: "vh_C04_slice", Globals: map[string]int{"vhSliceForm": form}, Unroll: 12})
+			}
 			for n := 1; n <= 3; n++ {
 				r = append(r, Oblig{Harness: "vh_C04_return", Globals: map[string]int{"vhNRet": n}, Unroll: 12})
 			}
@@ -25,6 +29,6 @@ func init() {
 		},
 		Bounds:      []string{"1..2 (thorough 3) operands on each side", "destinations and sources: any of 4 frame slots (every aliasing pattern)", "any subset of destinations blank", "= and := forms", "variables of type int (any value in (-1000,1000)) or [2]int (arrays are values: assignment copies)"},
 		Assumptions: []string{"operands are plain variables of type int or [2]int in the current frame (copy semantics of reflect.Value.Set on arrays is the reflect model's)", "a := statement does not repeat a variable on its left side"},
-		Outside:     []string{"everything else in C04: call/range/capture copies, append/copy/slicing, maps, pointers, composite literals, map-entry and index destinations, histories"},
+		Outside:     []string{"everything else in C04: call/range/capture copies, append/copy, maps, pointers, composite literals, map-entry and index destinations, histories"},
 	}
 }
